@@ -27,7 +27,7 @@ def check(run):
                        'c16serial', timeout=3000)
     run.sample_from(serial[0], 2)
     dmnfam.conformance(run, serial)
-    run.validate('Monitor_Daemon', dmnfam.monitor_cfg(INV, []), serial, 'mon')
+    run.validate('Monitor_Daemon', dmnfam.monitor_cfg(INV, ['C16_NoForeignAnalysisWrites']), serial, 'mon')
     par = run.drive('TestDriveC16', 8, lambda i: dict(VERIF_SEED=run.seed * 1000 + 100 + i, VERIF_N=run.pick(4, 40), VERIF_PARALLEL=1,
                                                       VERIF_MAXFANS=4), 'c16par', timeout=3000)
     # with the option true the observed analyses overlap (the monitor's non-vacuity probe must fire)
